@@ -52,6 +52,12 @@ class LeastSquaresStub:
         xa = isofix.column(h, x)
         if self.mode == 'eval':
             r = fun(xa, *args)
+            # contract of least_squares: the residuals at a solution it reports with success are finite (the cost only
+            # decreases from a finite start); a returned point on a pole of the model is outside the contract
+            if any(symx._nonfinite(v) is not None for v in numpy.asarray(r, dtype=object).ravel()):
+                if h.sym:
+                    raise symx.Abort()
+                h.assume(False)
         else:
             k = len(numpy.asarray(args[0], dtype=object).ravel())
             r = isofix.column(h, [h.real(f'{self.name}{n}_r{j}') for j in range(k)])
@@ -83,7 +89,9 @@ def h_fit(h, name, user_bounds):
     import pygaps.modelling as pgm
     m = pgm.get_isotherm_model(name, **kw)
     guess = {p: 1.0 for p in m.params}
-    ls = LeastSquaresStub(h)
+    # the residual vector reported by the optimiser is a vector of fresh symbols: the rmse identity is then decided for ANY
+    # reported residuals (fit() reads them only for the rmse), and the query stays small
+    ls = LeastSquaresStub(h, mode='fresh')
     with stubs.patched((optimize, 'least_squares', ls)):
         try:
             m.fit(isofix.column(h, ps), isofix.column(h, ns), guess)
@@ -110,10 +118,11 @@ def h_fit(h, name, user_bounds):
     z = [h.real(f'z{i}', pos=True) for i in range(len(names))]
     got = call.fun(isofix.column(h, z), *call.args)
     m2 = get_model(name)
-    m2.params = dict(zip(names, z))
+    nf = (lambda v: v) if h.sym else numpy.float64      # numpy float semantics (x/0 -> inf) as in the library's own arrays
+    m2.params = dict(zip(names, [nf(v) for v in z]))
     okr = True
     for i in range(k):
-        want_r = (m2.loading(ps[i]) - ns[i]) if m2.calculates == 'loading' else (m2.pressure(ns[i]) - ps[i])
+        want_r = (m2.loading(nf(ps[i])) - ns[i]) if m2.calculates == 'loading' else (m2.pressure(nf(ns[i])) - ps[i])
         okr = okr & h.close(got[i], want_r, 1e-12)
     h.claim(f'{cid}/residual==model(data)-data', okr)
     # rmse identity: rmse^2 * n * range^2 == sum r^2   (range = loading range for loading-explicit models)
@@ -258,7 +267,8 @@ def h_from_model(h, name):
 def obligations(tier):
     obs = []
     kw = dict(funcs=FUNCS, stubs=['least_squares contract stub'], timeout_s=60 if tier == 'quick' else 600, validate=1, max_paths=6000)
-    for name in (['Langmuir', 'Virial'] if tier == 'quick' else ['Langmuir', 'Henry', 'BET', 'Quadratic']):
+    for name in (['Langmuir', 'Henry', 'BET', 'Quadratic'] if tier == 'quick' else
+                 ['Langmuir', 'Henry', 'BET', 'Quadratic', 'DSLangmuir', 'TSLangmuir', 'GAB', 'TemkinApprox']):
         if name == 'Virial':
             continue
         for ub in (False, True):
